@@ -213,6 +213,8 @@ impl World {
         if let Some(kind) = &hit {
             self.counters.faults_fired += 1;
             self.fired.push(json!({"op":op,"kind":kind,"k":k,"r":-1}));
+            // a failing socket operation is not free
+            clock::advance_us(self.sc.net.fail_cost_us);
         }
         hit
     }
@@ -422,17 +424,18 @@ impl World {
             };
             let quoted = self.quote(&datagram, &path, usize::from(ttl), &hop);
             let from = addr_of(hop.addr, self.sc.fam);
-            let bytes = self.icmp_error(from, true, &quoted, &hop);
+            let bytes = self.icmp_error(from, !hop.du, &quoted, &hop);
+            let hop_kind: &'static str = if hop.du { "du" } else { "te" };
             let xt = if hop.quote == 2 || hop.quote == 3 {
                 Some(hop.mpls.iter().map(|m| [m.label, u32::from(m.exp), u32::from(m.bos), u32::from(m.ttl)]).collect::<Vec<_>>())
             } else {
                 None
             };
             self.next_ext.clone_from(&xt);
-            self.enqueue(now + delay, bytes.clone(), from, Origin::Resp(k), false, "te", 0);
+            self.enqueue(now + delay, bytes.clone(), from, Origin::Resp(k), false, hop_kind, 0);
             if dup >= 0 {
                 self.next_ext = xt;
-                self.enqueue(now + dup as u64, bytes, from, Origin::Resp(k), false, "te", 0);
+                self.enqueue(now + dup as u64, bytes, from, Origin::Resp(k), false, hop_kind, 0);
             }
         }
     }
